@@ -16,7 +16,7 @@
     Exchange/Index.v and commitment / market operations of Exchange/Commit.v; the observations also
     carry the market listing (GetAllMarkets / GetMarket) and the four commitment lookups. *)
 From Coq Require Import ZArith NArith List String Bool.
-From PV Require Export Exchange.KV Exchange.Index Exchange.Paging Exchange.Commit Corr.CorrBase.
+From PV Require Export Exchange.KV Exchange.Index Exchange.Paging Exchange.Commit Exchange.GenesisImport Corr.CorrBase.
 Import ListNotations.
 Open Scope string_scope.
 Open Scope list_scope.
@@ -25,17 +25,21 @@ Open Scope N_scope.
 (** Short constructors for the generated terms. *)
 Definition O (bid : bool) (m : N) (own asset : bytes) (amt : Z) (ext : bytes) : order :=
   {| o_bid := bid; o_market := m; o_owner := own; o_asset := asset; o_amount := amt; o_ext := ext |}.
-Definition P (src ext tgt : bytes) (amt : Z) : payment :=
-  {| p_source := src; p_ext := ext; p_target := tgt; p_amount := amt |}.
+(** [P source source-is-upper-case external-id target target-is-upper-case amount] *)
+Definition P (src : bytes) (sup : bool) (ext tgt : bytes) (tup : bool) (amt : Z) : payment :=
+  {| p_source := src; p_src_up := sup; p_ext := ext; p_target := tgt; p_tgt_up := tup; p_amount := amt |}.
+Definition G (mk : list (N * bool)) (lm : N) (os : list (N * order)) (lo : N)
+             (cs : list (N * bytes * coins)) (ps : list payment) : genesis :=
+  {| g_markets := mk; g_last_market := lm; g_orders := os; g_last_order := lo; g_commits := cs; g_pays := ps |}.
 
 Inductive endpoint :=
 | EMarket (m : N) | EOwner (a : bytes) | EAsset (d : bytes) | EAll
 | EPaySrc (a : bytes) | EPayTgt (a : bytes) | EPayAll
-| ECommitMkt (m : N) | ECommitAll.
+| ECommitMkt (m : N) | ECommitAll | EMarkets.
 
 (** A listed item: an order id, a payment identified by (source, external id), or a commitment
     identified by (market, account) with its amount. *)
-Inductive item := IO (id : N) | IP (src ext : bytes) | IC (m : N) (a : bytes) (c : coins).
+Inductive item := IO (id : N) | IP (src ext : bytes) | IC (m : N) (a : bytes) (c : coins) | IM (m : N).
 
 (** One observed page: request key/offset, whether the call succeeded, items, next_key, total. *)
 Inductive pageobs := Pg (k : key) (offset : N) (ok : bool) (items : list item) (next : key) (total : N).
@@ -70,20 +74,28 @@ Record obs := {
 (** op, accepted?, id handed out (order or market creations), observations, sessions *)
 Inductive hstep := St (o : xop) (ok : bool) (created : option N) (ob : obs) (ss : list session).
 
-Inductive case := CHist (steps : list hstep).
+(** [CHist]: a history from the empty store.  [CGen g names ok steps]: InitGenesis of [g] on the empty
+    store ([ok] = it did not panic and Validate passed; [names] = the name tags of its markets),
+    then a history from the imported state (the first step is an observation of that state). *)
+Inductive case :=
+| CHist (steps : list hstep)
+| CGen (g : genesis) (names : list (N * N)) (ok : bool) (steps : list hstep).
 
 (** ---- equality tests ---- *)
 Definition order_eqb (a b : order) : bool :=
   Bool.eqb (o_bid a) (o_bid b) && (o_market a =? o_market b) && bytes_eqb (o_owner a) (o_owner b) &&
   bytes_eqb (o_asset a) (o_asset b) && Z.eqb (o_amount a) (o_amount b) && bytes_eqb (o_ext a) (o_ext b).
 Definition pay_eqb (a b : payment) : bool :=
-  bytes_eqb (p_source a) (p_source b) && bytes_eqb (p_ext a) (p_ext b) &&
-  bytes_eqb (p_target a) (p_target b) && Z.eqb (p_amount a) (p_amount b).
+  bytes_eqb (p_source a) (p_source b) && Bool.eqb (p_src_up a) (p_src_up b) &&
+  bytes_eqb (p_ext a) (p_ext b) &&
+  bytes_eqb (p_target a) (p_target b) && Bool.eqb (p_tgt_up a) (p_tgt_up b) &&
+  Z.eqb (p_amount a) (p_amount b).
 Definition item_eqb (a b : item) : bool :=
   match a, b with
   | IO x, IO y => x =? y
   | IP s e, IP s' e' => bytes_eqb s s' && bytes_eqb e e'
   | IC m a c, IC m' a' c' => (m =? m') && bytes_eqb a a' && coins_eqb c c'
+  | IM m, IM m' => m =? m'
   | _, _ => false
   end.
 Definition ac_eqb (x y : bytes * coins) : bool := bytes_eqb (fst x) (fst y) && coins_eqb (snd x) (snd y).
@@ -120,6 +132,11 @@ Definition model_page (xs : xstate) (ep : endpoint) (otype : option N) (after : 
   | ECommitAll =>
       match page_of_all_commitments kv rq with
       | Some (l, resp) => Some (map (fun x => IC (fst (fst x)) (snd (fst x)) (snd x)) l, resp)
+      | None => None
+      end
+  | EMarkets =>
+      match page_of_all_markets kv rq with
+      | Some (l, resp) => Some (map IM l, resp)
       | None => None
       end
   end.
@@ -164,6 +181,7 @@ Definition expected_items (ob : obs) (ep : endpoint) (otype : option N) (after :
         map (fun x => IC m (fst x) (snd x))
             (match List.find (fun x => fst x =? m) (ob_cmkt ob) with Some x => snd x | None => [] end)
     | ECommitAll => map (fun x => IC (fst (fst x)) (snd (fst x)) (snd x)) (ob_commits ob)
+    | EMarkets => map IM (ob_markets ob)
     end in
   if reverse then rev fwd else fwd.
 
@@ -207,6 +225,7 @@ Definition prop_session (ob : obs) (se : session) : list string :=
     | EPayAll, _, _ => ["prop:paging_complete:all_payments"]
     | ECommitMkt _, _, _ => ["prop:paging_complete:market_commitments"]
     | ECommitAll, _, _ => ["prop:paging_complete:all_commitments"]
+    | EMarkets, _, _ => ["prop:paging_complete:all_markets"]
     end.
 
 Fixpoint strictly_ascending (l : list N) : bool :=
@@ -424,9 +443,36 @@ Fixpoint check_steps (s : xstate) (prev_max : N) (prev_ids : list N) (prev_mk : 
       check_steps s' mx ids (ob_mnames ob) (ob_orders ob) (N.succ i) r first' (known ++ kn)
   end.
 
+(** After an import every order, payment and commitment of the genesis file must be there (the
+    lookups are then compared with these by [prop_obs] / [prop_commits] as after any other step). *)
+Definition prop_imported (g : genesis) (names : list (N * N)) (h : hstep) : list string :=
+  let '(St _ _ _ ob _) := h in
+  tag (forallb (fun io => existsb (fun x => (fst x =? fst io) && order_eqb (snd x) (snd io)) (ob_orders ob))
+               (g_orders g) &&
+       (List.length (ob_orders ob) =? List.length (g_orders g))%nat)
+      "prop:genesis_orders_imported" ++
+  tag (forallb (fun p => existsb (pay_eqb p) (ob_pays ob)) (g_pays g) &&
+       (List.length (ob_pays ob) =? List.length (g_pays g))%nat)
+      "prop:genesis_payments_imported" ++
+  tag (same_set N.eqb (ob_markets ob) (map fst (g_markets g)) &&
+       forallb (fun x => existsb (fun y => (fst x =? fst y) && (snd x =? snd y)) (ob_mnames ob)) names)
+      "prop:genesis_markets_imported" ++
+  tag (forallb (fun c => existsb (fun x => (fst (fst x) =? fst (fst c)) && bytes_eqb (snd (fst x)) (snd (fst c)))
+                                 (ob_commits ob) || cis_zero (snd c)) (g_commits g))
+      "prop:genesis_commitments_imported".
+
 Definition check (c : case) : list string :=
   match c with
   | CHist steps => check_steps xinit 0 [] [] [] 0 steps [] []
+  | CGen g names ok steps =>
+      match init_genesis xinit g with
+      | Some xs =>
+          if ok then
+            (match steps with h :: _ => prop_imported g names h | [] => ["corr:genesis_not_observed"] end) ++
+            check_steps xs (g_last_order g) (map fst (g_orders g)) names (g_orders g) 0 steps [] []
+          else ["corr:genesis_accepted"]
+      | None => tag (negb ok) "corr:genesis_accepted"
+      end
   end.
 
 Definition check_all := check_list check.
